@@ -163,4 +163,22 @@ C10_LookupEntryOK(s, e) ==
     IN NoDup(e.res) /\ SeqSet(e.res) = {y \in SeqSet(sibs) : hit(y)}
 C10_LookupAgrees(s, lk) == \A j \in DOMAIN lk : C10_LookupEntryOK(s, lk[j])
 
+---------------------------------------------------------------------------
+(* C19 - a listener that merely replays the announcements holds an exact   *)
+(* mirror.  m is the mirror listener's copy (membership level: containment *)
+(* as sets of pairs, connections as a set, references, top, data).         *)
+MirrorOf(s) ==
+    [ rel  |-> [rn \in RelNames |->
+                  {<<p, s[Rel[rn].list][p][j]>> :
+                      <<p, j>> \in {<<pp, jj>> \in (1..CountOf(s, Rel[rn].pk)) \X (1..12) :
+                                        jj \in DOMAIN s[Rel[rn].list][pp]}}],
+      conn |-> {[w |-> w, r |-> s.wirePins[w][j]] :
+                   <<w, j>> \in {<<ww, jj>> \in IdsW(s) \X (1..12) : jj \in DOMAIN s.wirePins[ww]}},
+      ref  |-> s.instRef,
+      top  |-> s.nlTop,
+      data |-> [N |-> s.nlData, L |-> s.libData, D |-> s.defData, P |-> s.portData,
+                C |-> s.cabData, I |-> s.instData] ]
+C19_MirrorExact(s, m) == MirrorOf(s) = m
+C19_BeforeEffect(ann) == \A j \in DOMAIN ann : ~ann[j].late
+
 =============================================================================
